@@ -340,6 +340,15 @@ def gen_resgraph(g, ff, maxn=10):
         rg["from_itp"] = {str(pos + i): mr["name"] for i in range(k)}
         rg.pop("resid_start", None)       # from_itp fragments with residue ids not starting at 1 crash in link
         #                                   application (C01 territory, noted in DESIGN): not generated
+        if not mr.get("split_first") and g.random() < 0.3:
+            # a second copy of the building block further down the chain (one ordinary residue in between)
+            sep = g.choice(names)
+            base_len = len(seq2)
+            seq2 = seq2 + [sep] + names_mr
+            rg["resnames"] = seq2
+            rg["edges"] = [[i, i + 1] for i in range(len(seq2) - 1)]
+            rg["from_itp"].update({str(base_len + 1 + i): mr["name"] for i in range(k)})
+            rg["two_fragments"] = True
         if mr.get("split_first") and len(ff["blocks"][mr["comp"][0]]["atoms"]) >= 2:
             rg["resnames"] = seq2[:pos] + ["RX"] + seq2[pos:]
             rg["edges"] = [[i, i + 1] for i in range(len(rg["resnames"]) - 1)]
